@@ -2,12 +2,12 @@ SPECIFICATION Spec
 CONSTANTS Flows = {1, 2}
           ProtoOf <- Proto_uu
           TO <- TO_213
-          InitRules <- SemInitRules
+          InitRules <- SemInitRulesU
           RuleSets <- NoRuleSets
           Reloads = TRUE
-          Cfgs <- SemCfgs3
-          InitCfg <- SemInit
-          EffOf <- EffSem
+          Cfgs <- SemCfgsUQ
+          InitCfg <- SemInitU
+          EffOf <- EffSemU
           VerMod = 3
           Gaps <- NoGaps
           MaxItems = 2
